@@ -112,6 +112,12 @@ func (s *stepper) Begin(b replay.Behaviour, rng *rand.Rand) error {
 	if s.transport == "mixed" {
 		s.transport = []string{"pipe", "unix", "tcp"}[rng.Intn(3)]
 	}
+	for _, st := range b {
+		if st.A == "Hangup" {
+			// a failing response write is deterministic only on an unbuffered pipe
+			s.transport = "pipe"
+		}
+	}
 	s.done = make(chan struct{})
 	s.streams = make(chan []batchRec, 64)
 	s.startServe = make(chan struct{})
@@ -181,7 +187,7 @@ func (s *stepper) Begin(b replay.Behaviour, rng *rand.Rand) error {
 	// them back to back (sockets only: an io.Pipe hands over one Write at a time)
 	s.calls = nil
 	for _, st := range b {
-		if st.A != "Call" {
+		if st.A != "Call" && st.A != "Hangup" {
 			continue
 		}
 		s.calls = append(s.calls, &call{k: replay.Str(st.Args, "k"), m: replay.Str(st.Args, "m"), args: st.Args,
@@ -565,6 +571,71 @@ func (s *stepper) Step(i int, st replay.Step) (replay.Obs, error) {
 		}
 		obs["extra"] = extra
 		obs["leak"] = s.leak()
+		return obs, nil
+	case "Hangup":
+		// the client sends the call and closes its read end before the response: every
+		// response write of the server fails (io.Pipe: immediately, deterministically)
+		s.ncall++
+		if s.ncall > len(s.calls) {
+			return nil, fmt.Errorf("call %d was not prepared", s.ncall)
+		}
+		c := s.calls[s.ncall-1]
+		if cl, ok := s.cr.(io.Closer); ok {
+			cl.Close()
+		}
+		werr := make(chan error, 1)
+		go func() { werr <- s.writeCall(c) }()
+		wrote := false
+		select {
+		case <-werr:
+			wrote = true
+		case <-s.done:
+		case <-time.After(wait):
+		}
+		if wrote {
+			s.cw.Close()
+		}
+		ended := "clean"
+		select {
+		case <-s.done:
+			if s.panicked != "" {
+				ended = s.panicked
+			}
+		case <-time.After(wait):
+			ended = "serve loop still running after the client hung up and closed"
+		}
+		// unblock a client write the server never consumed
+		for _, cl := range s.closers {
+			cl.Close()
+		}
+		bal := true
+		var ev [][]any
+		if s.hook != nil {
+			ev = s.hook.TakeFor(c.rid)
+			if len(ev) == 1 && ev[0][0] == "start" {
+				deadline := time.Now().Add(1500 * time.Millisecond)
+				for time.Now().Before(deadline) {
+					if more := s.hook.TakeFor(c.rid); len(more) > 0 {
+						ev = append(ev, more...)
+						break
+					}
+					time.Sleep(2 * time.Millisecond)
+				}
+			}
+			switch {
+			case len(ev) == 0:
+			case len(ev) == 1 && ev[0][0] == "start_panicked":
+			case len(ev) == 2 && ev[0][0] == "start" && ev[1][0] == "end" && ev[0][1] == ev[1][1] && len(ev[1]) == 3:
+			default:
+				bal = false
+			}
+		}
+		obs["hookbal"] = bal
+		obs["ended"] = ended
+		if !bal {
+			obs["__note__"] = fmt.Sprintf("hook events of the call: %v", ev)
+		}
+		svc.Take(c.sid)
 		return obs, nil
 	case "Call":
 	default:
